@@ -15,7 +15,7 @@ PROPERTY = "C19"
 RULE = (
     "cases are arcs with radii ratio up to 100, any rotation, extents from 1e-3 to 2.5 pi in both directions (centre "
     "form) and endpoint-form arcs of all classes, converted with as_cubic_curves / as_quad_curves at the default and "
-    "at explicit subdivision counts, alone and embedded at a generated position of a path converted with "
+    "at explicit subdivision counts, fresh or after having been rotated / scaled / mirrored by a matrix, alone and embedded at a generated position of a path converted with "
     "approximate_arcs_with_cubics/quads(error). Non-trivial = eccentric (ratio > 1.5) rotated arc with negative or "
     "multi-slice sweep; distinct by the case."
 )
@@ -27,7 +27,7 @@ ASSUMPTIONS = [
     "finer subdivision: the measured error for 2n slices may exceed the error for n slices only by rounding (1e-9 relative to the radius)",
 ]
 TOLERANCES = {"cubic": 1e-3, "quadratic": 1e-2, "exact ends/joins": 0.0}
-MANDATORY_LABELS = {"quick": ["mode:cubic", "mode:quad", "n:default", "n:explicit", "embedded", "embedded:several-arcs", "embedded:zero-extent-arc", "sweep:negative", "sweep:beyond-full-turn", "sweep:zero", "sweep:tiny"]}
+MANDATORY_LABELS = {"quick": ["mode:cubic", "mode:quad", "n:default", "n:explicit", "embedded", "embedded:several-arcs", "embedded:zero-extent-arc", "sweep:negative", "sweep:beyond-full-turn", "sweep:zero", "sweep:tiny", "history:mirrored", "history:rotated-scaled"]}
 MANDATORY_LABELS["thorough"] = MANDATORY_LABELS["quick"]
 
 
@@ -46,6 +46,9 @@ def decode(d):
             sweep = -sweep
         arc = ["E", gen.point(d), gen.r6(rx), gen.r6(ry), gen.angle_deg(d), gen.r6(d.uniform(-3.2, 3.2)), sweep]
     case = {"arc": arc, "mode": d.choice(["cubic", "quad"]), "n": None if d.bool() else d.choice([1, 2, 3, 4, 6, 8, 12, 16, 24, 40]), "path": None}
+    if d.chance(1, 3):
+        # the arc has a history: it was rotated / scaled / mirrored (ratio-preserving maps) before being converted
+        case["pre"] = gen.matrix(d, classes=["similarity", "reflection", "antidiagonal", "reflection"])["m"]
     if d.chance(3, 8):
         # the arc embedded in a path among other segments - further arcs and zero-extent arcs included
         def extra(n):
@@ -68,7 +71,7 @@ def decode(d):
 
 
 def parts(tier):
-    n = 1500 if tier == "quick" else 10000
+    n = 3000 if tier == "quick" else 10000
     return [core.Part("arcs", "sampled", lambda: gen.cases(decode, 384), budget=n)]
 
 
@@ -140,6 +143,9 @@ def check(case):
     se = lib.L()
     o = core.Obs()
     arc = c02.mk_seg(case["arc"])
+    if case.get("pre"):
+        arc = arc * lib.mk_matrix(case["pre"])
+        o.label("history:mirrored" if gen.mat_det(case["pre"]) < 0 else "history:rotated-scaled")
     mode, n = case["mode"], case["n"]
     o.label("mode:%s" % mode, "n:%s" % ("default" if n is None else "explicit"))
     sweep = arc.sweep
